@@ -3,6 +3,7 @@ import Moyo.Tables.Misc
 import Moyo.Proofs.TablesBasic
 import Moyo.Proofs.TablesClosed
 import Moyo.Proofs.TablesConj
+import Mathlib.Data.List.Sort
 /-
 From the Boolean row checkers (`hallRowOK`, `arithRowOK`, `magRowOK`, `magRangeOK`) to statements
 about the model's objects (`HallSymbol.new`, `traverse`, `primitiveMod`) and the regenerated tables.
@@ -212,6 +213,24 @@ theorem standard_range {n : Nat} (h1 : 1 ≤ n) (h2 : n ≤ 230) :
   have := List.all_eq_true.1 fields_in_range.2.2.1 _ (List.getElem_mem hlen)
   simpa only [Bool.and_eq_true, decide_eq_true_eq] using this
 
+/-- The Standard-setting Hall entry of type `n` exists and has `number = n`. -/
+theorem standard_entry_number (n : Nat) (h1 : 1 ≤ n) (h2 : n ≤ 230) :
+    ∃ e : HallEntry, hallEntry ((standardHallNumbers.toList[n - 1]?).getD 0) = some e ∧ e.number = n := by
+  have := List.all_eq_true.1 setting_numbers (n - 1) (List.mem_range.2 (by omega))
+  simp only [Bool.and_eq_true, beq_iff_eq] at this
+  have h := this.2
+  rw [show n - 1 + 1 = n by omega] at h
+  obtain ⟨e, he, hn⟩ := Option.map_eq_some_iff.1 h
+  exact ⟨e, he, hn⟩
+
+theorem magTypeEntry_le {u : Nat} {t : MagTypeEntry} (ht : magTypeEntry u = some t) : u ≤ 1651 := by
+  have hlt : u - 1 < magTypeTableList.length := by
+    by_contra hc
+    rw [magTypeEntry, List.getElem?_eq_none (by omega)] at ht
+    cases ht
+  rw [table_sizes.2.2.2.2.2.2.1] at hlt
+  omega
+
 theorem magTypeEntry_range {u : Nat} {t : MagTypeEntry} (ht : magTypeEntry u = some t) :
     1 ≤ t.number ∧ t.number ≤ 230 := by
   have := List.all_eq_true.1 fields_in_range.2.2.2 t (List.mem_of_getElem? ht)
@@ -239,6 +258,90 @@ theorem conventionalOps_length {hs : HallSymbol} {ops : List HOp} (h : hs.traver
     simp only [HallSymbol.conventionalOps, h, Option.map_some]
   refine ⟨_, e, ?_⟩
   rw [length_flatMap_const _ _ ops.length (fun c => by simp), lattice_order]
+
+theorem constructType_le (c : Centering) (ops : List HOp) : constructType c ops ≤ 4 := by
+  unfold constructType
+  simp only
+  split_ifs
+  · omega
+  · omega
+  · split
+    · omega
+    · split_ifs <;> omega
+    · omega
+
+/-! ### UNI ranges -/
+
+/-- Order-independent set code stored for UNI number `u`. -/
+def magSetCert (u : Nat) : Nat := (chunkGet C17.magSetChunks (u - 1)).getD 0
+
+theorem rangesContiguous_ge : ∀ (l : List (Nat × Nat)) (s : Nat), rangesContiguous l s = true →
+    ∀ x ∈ l, s ≤ x.1 ∧ x.1 ≤ x.2
+  | [], _, _ => by simp
+  | (lo, hi) :: rest, s, h => by
+    simp only [rangesContiguous, Bool.and_eq_true, beq_iff_eq, decide_eq_true_eq] at h
+    obtain ⟨⟨h1, h2⟩, h3⟩ := h
+    intro x hx
+    rcases List.mem_cons.1 hx with rfl | hx
+    · exact ⟨by simp [h1], h2⟩
+    · have := rangesContiguous_ge rest (hi + 1) h3 x hx
+      omega
+
+structure MagRangeFacts (n lo hi : Nat) : Prop where
+  pos : 1 ≤ n
+  range : magRanges[n - 1]? = some (lo, hi)
+  lo_pos : 1 ≤ lo
+  le : lo ≤ hi
+  number : ∀ u, lo ≤ u → u ≤ hi → (magTypeEntry u).map (·.number) = some n
+  type1 : ((List.range' lo (hi + 1 - lo)).filter fun u => (magTypeEntry u).map (·.constructType) == some 1).length = 1
+  type2 : ((List.range' lo (hi + 1 - lo)).filter fun u => (magTypeEntry u).map (·.constructType) == some 2).length = 1
+  distinct : ∀ u v, lo ≤ u → u ≤ hi → lo ≤ v → v ≤ hi → u ≠ v → magSetCert u ≠ magSetCert v
+
+theorem magRange_facts {n : Nat} (hok : magRangeOK n = true) : ∃ lo hi, MagRangeFacts n lo hi := by
+  unfold magRangeOK at hok
+  cases hr : magRanges[n - 1]? with
+  | none => simp [hr] at hok
+  | some x =>
+    obtain ⟨lo, hi⟩ := x
+    simp only [hr, Bool.and_eq_true, decide_eq_true_eq, beq_iff_eq, List.all_eq_true, List.mem_map,
+      List.mem_range'_1, forall_exists_index, and_imp, chunkGet_magType] at hok
+    obtain ⟨⟨hn, hle⟩, ⟨⟨hnum, ht1⟩, ht2⟩, hd⟩ := hok
+    have hlo : 1 ≤ lo := (rangesContiguous_ge _ _ mag_ranges.2.1 (lo, hi) (List.mem_of_getElem? hr)).1
+    refine ⟨lo, hi, hn, hr, hlo, hle, ?_, ?_, ?_, ?_⟩
+    · intro u h1 h2
+      exact hnum _ u h1 (by omega) rfl
+    · simpa only [List.filter_map, List.length_map, Function.comp_def, magTypeEntry] using ht1
+    · simpa only [List.filter_map, List.length_map, Function.comp_def, magTypeEntry] using ht2
+    · intro u v hu1 hu2 hv1 hv2 huv
+      have hnd := (pairwiseDistinct_iff _).1 hd
+      rw [List.map_map] at hnd
+      have hinj := List.inj_on_of_nodup_map hnd
+      intro heq
+      exact huv (hinj (List.mem_range'_1.2 ⟨hu1, by omega⟩) (List.mem_range'_1.2 ⟨hv1, by omega⟩)
+        (by simpa [magSetCert] using heq))
+
+/-! ### the set code is a function of the set of operations -/
+
+theorem insertSorted_eq (x : Nat) (l : List Nat) : insertSorted x l = l.orderedInsert (· ≤ ·) x := by
+  induction l with
+  | nil => rfl
+  | cons y t ih => simp only [insertSorted, List.orderedInsert, ih]
+
+theorem sortNat_eq (l : List Nat) : sortNat l = l.insertionSort (· ≤ ·) := by
+  induction l with
+  | nil => rfl
+  | cons x t ih =>
+    simp only [sortNat, List.foldr_cons, List.insertionSort_cons] at ih ⊢
+    rw [insertSorted_eq, ← ih]
+
+/-- Lists of operations that are permutations of each other have the same set code. -/
+theorem setCode_of_perm {l1 l2 : List HOp} (h : l1.Perm l2) : setCode l1 = setCode l2 := by
+  unfold setCode
+  rw [sortNat_eq, sortNat_eq]
+  congr 1
+  have hp : (l1.map opCode).Perm (l2.map opCode) := h.map _
+  exact List.Perm.eq_of_pairwise' (r := (· ≤ ·)) (List.pairwise_insertionSort _ _) (List.pairwise_insertionSort _ _)
+    (((List.perm_insertionSort _ _).trans hp).trans (List.perm_insertionSort _ _).symm)
 
 /-- Geometric-class index (in `geoNames`) and order of the geometric class of arithmetic class `k`. -/
 def geoOrderOfArith (k : Nat) : Nat := sumList ((geoHist[geoIdxOfArith k]?).getD [])
